@@ -459,6 +459,12 @@ def Full.step (f : Full) (line : String) : Full :=
   | "eread" => let (w, ew) := onERead (bump f.w) f.ew toks; { f with w := w, ew := ew }
   | "efinal" => let (w, ew) := onEFinal (bump f.w) f.ew toks; { f with w := w, ew := ew }
   | "eclosed" => { f with w := onEClosed (bump f.w) toks }
+  | "buscensus" =>
+    -- C18: an instance that has been closed listens to nothing on its event bus any more (the bus may be
+    -- the caller's own: a subscription nobody reads blocks whoever emits on it once its buffer is full)
+    let w := bump f.w
+    { f with w := if toks.getD 2 "-" != "-" then
+        w.fail "C18" "leak" s!"peer {toks.getD 1 ""}: after the instance was closed these subscriptions of the library are still open on its event bus: {toks.getD 2 ""}" else w }
   | "reuseopts" =>
     let w := bump f.w
     -- (a name Create refuses is refused both times: nothing to judge)
